@@ -120,6 +120,16 @@ def ty_str(t, spec: LangSpec) -> str:
     return spec.name(o) + "(" + ", ".join(ty_str(a, spec) for a in args) + ")"
 
 
+def ty_text(t, spec: LangSpec) -> str:
+    """type text that Language.parse_type accepts (products as `(a * b)`; no functions)"""
+    o, args = t
+    if o == PROD:
+        return "(" + ty_text(args[0], spec) + " * " + ty_text(args[1], spec) + ")"
+    if not args:
+        return spec.name(o)
+    return spec.name(o) + "(" + ", ".join(ty_text(a, spec) for a in args) + ")"
+
+
 def gen_ty(rng, spec: LangSpec, depth: int, p_special=0.12, allow_fun=True):
     """random well-formed concrete type of nesting <= depth"""
     comps = spec.compounds()
